@@ -52,6 +52,11 @@ class FuncInfo:
         return not self.name.startswith("_") and self.parent is None
 
     @property
+    def is_static(self):
+        """decorated with @staticmethod: no implicit first argument"""
+        return any((isinstance(d, ast.Name) and d.id == "staticmethod") or (isinstance(d, ast.Attribute) and d.attr == "staticmethod") for d in getattr(self.node, "decorator_list", ()))
+
+    @property
     def params(self):
         a = self.node.args
         return [x.arg for x in a.posonlyargs + a.args] + ([a.vararg.arg] if a.vararg else []) + \
